@@ -293,9 +293,15 @@ func runTUInput(rep *Report, in TUInput, cf *CaseFile) {
 				var es []string
 				kids := append([]testutil.DirEntry{}, d.Children...)
 				sort.Slice(kids, func(i, j int) bool { return kids[i].Path < kids[j].Path })
+				idOf := map[string]int{} // equal children (byte-identical files) share a CID, hence one opaque id
 				for i, ch := range kids {
-					registerExt(ch.Root, uint64(i))
-					es = append(es, fmt.Sprintf("(%s, %s, %d, %d)", coqBytes([]byte(ch.Path)), coqZ(int64(ch.TSize)), i, ch.Root.ByteLen()))
+					id, seen := idOf[ch.Root.KeyString()]
+					if !seen {
+						id = i
+						idOf[ch.Root.KeyString()] = id
+						registerExt(ch.Root, uint64(id))
+					}
+					es = append(es, fmt.Sprintf("(%s, %s, %d, %d)", coqBytes([]byte(ch.Path)), coqZ(int64(ch.TSize)), id, ch.Root.ByteLen()))
 				}
 				// fingerprint with children as opaque targets
 				f := fpPlainDir(dag)
@@ -380,6 +386,27 @@ func scnTestutil(rep *Report, rng *Rng, tier string, outdir string) {
 		add(TUInput{Gen: "gendirfrom", Seed: seed, Size: sz, Dirname: "/x/y", Sharded: i%2 == 0})
 		add(TUInput{Gen: "build", Seed: seed, Size: sz, Sharded: i%2 == 1})
 		add(TUInput{Gen: "wrap", Seed: seed, Size: sz, WrapPath: []string{"/a", "/a/b", "want/deep/er/path"}[i%3], Exclusive: i%2 == 0, Sharded: i%4 == 0})
+	}
+	// many large GenerateDirectory runs: two files drawing the same word and extension are rare (about one seed in ten)
+	nBig := 40
+	if tier == "thorough" {
+		nBig = 400
+	}
+	for j := 0; j < nBig; j++ {
+		seed := rng.Next() % 100000
+		add(TUInput{Gen: "gendir", Seed: seed, Size: 65536, Sharded: j%5 == 4})
+		add(TUInput{Gen: "gendirfrom", Seed: seed, Size: 65536, Dirname: "/x/y", Sharded: false})
+	}
+	// tiny targets: many one-byte files, hence the same CID linked from several places
+	for _, sz := range []int{32, 40, 64, 128} {
+		for j := 0; j < 5; j++ {
+			seed := rng.Next() % 100000
+			add(TUInput{Gen: "gendir", Seed: seed, Size: sz})
+			add(TUInput{Gen: "gendirfrom", Seed: seed, Size: sz, Dirname: "/x/y"})
+			add(TUInput{Gen: "dir", Seed: seed, Size: sz})
+			add(TUInput{Gen: "build", Seed: seed, Size: sz})
+			add(TUInput{Gen: "wrap", Seed: seed, Size: sz, WrapPath: "/a/b"})
+		}
 	}
 	cf.Flush()
 }
